@@ -2458,9 +2458,9 @@ class Parameters:
         # (which is tricky but important for startup speed).
         cls = self_.cls
         type.__setattr__(cls, param_name, param_obj)
+        # delete cached params() of the class and of its subclasses
+        cls._clear_params_cache()
         ParameterizedMetaclass._initialize_parameter(cls, param_name, param_obj)
-        # delete cached params()
-        cls._param__private.params.clear()
 
     # PARAM3_DEPRECATION
     @_deprecated(extra_msg="Use instead `.param.add_parameter`", warning_cat=_ParamFutureWarning)
@@ -4459,13 +4459,22 @@ class ParameterizedMetaclass(type):
                 parameter = copy.copy(parameter)
                 parameter.owner = mcs
                 type.__setattr__(mcs,attribute_name,parameter)
+                mcs._clear_params_cache()
             mcs.__dict__[attribute_name].__set__(None,value)
 
         else:
             type.__setattr__(mcs,attribute_name,value)
 
             if isinstance(value,Parameter):
+                mcs._clear_params_cache()
                 mcs.__param_inheritance(attribute_name,value)
+
+    def _clear_params_cache(mcs):
+        """Drop the cached `.param` lookup of this class and of all its subclasses."""
+        for cls in descendents(mcs):
+            private = cls.__dict__.get('_param__private')
+            if private is not None:
+                private.params = {}
 
     def __param_inheritance(mcs, param_name, param):
         """
